@@ -3,6 +3,7 @@
   the alias messages.
 -/
 import DymVerif.Lemmas.DymNSInv2
+import DymVerif.Lemmas.DymNSGov
 namespace DymVerif.DymNS
 open AMap
 
@@ -346,6 +347,11 @@ theorem acceptBO_inv {s s' : State} {a pfx id m} (hI : Inv s) (h : acceptBO s a 
   · exact acceptAliasBO_inv hI (getBO_some hg).1 h
   · exact acceptNameBO_inv hI (getBO_some hg).1 h
 
+/-- a RollApp changes hands: the alias maps are untouched, the RollApp stays a RollApp -/
+theorem transferRollapp_inv {s s' : State} {a c b} (hI : Inv s) (h : transferRollapp s a c b = .ok s') : Inv s' := by
+  obtain ⟨r, _, _, _, rfl⟩ := transferRollapp_ok h
+  exact alChanged_inv hI (aliasOK_addRollapp c _ hI.ali)
+
 /-! ### every operation -/
 
 theorem init_inv : Inv State.init := by
@@ -389,6 +395,10 @@ theorem exec_inv {s s' : State} {op : Op} (hI : Inv s) (h : exec s op = .ok s') 
   | completeAlias a l => exact completeAliasSOMsg_inv hI h
   | buyAlias a l o d => exact purchaseAlias_inv hI h
   | offerAlias a l o c d => exact placeAliasBO_inv hI h
+  | transferRollapp a c b => exact transferRollapp_inv hI h
+  | migrateChainIds m => exact migrateChainIds_inv hI h
+  | updateAliases ad rm => exact updateAliases_inv hI h
+  | setParams g d mo bi => exact setParams_inv hI h
 
 theorem step_inv {s : State} (op : Op) (hI : Inv s) : Inv (step s op) := by
   unfold step
